@@ -49,7 +49,7 @@ func spkUniverseFor(prop string, thorough bool) *spkUniverse {
 	advE := bgpAdv("adv-e", 32, 128, 0, nil, []string{"p1"}, nil, nil)
 	advD := bgpAdv("adv-d", 32, 128, 0, nil, nil, msel("rack", "b"), nil)
 	peers := []metallbv1beta2.BGPPeer{p1, p2}
-	u := &spkUniverse{Name: prop, Svcs: []string{"s1", "s2"}, Ifs: []string{"eth0", "eth1"}, AddrUniverse: []string{"10.0.1.1", "10.0.1.9", "fc00:1::1"}}
+	u := &spkUniverse{Name: prop, Svcs: []string{"s1", "s2"}, Ifs: []string{"eth0", "eth1"}, AddrUniverse: []string{"10.0.1.1", "10.0.1.9", "fc00:1::1", "10.0.2.7"}}
 	u.NodeVars = map[string][]spkNodeVariant{
 		spkMe: {{"rack-a", map[string]string{"rack": "a"}, false}, {"rack-a-unavailable", map[string]string{"rack": "a"}, true},
 			{"rack-a-excluded", map[string]string{"rack": "a", v1.LabelNodeExcludeBalancers: ""}, false}, {"rack-c", map[string]string{"rack": "c"}, false}},
@@ -62,6 +62,7 @@ func spkUniverseFor(prop string, thorough bool) *spkUniverse {
 		{"lb-a+a6", v1.ServiceTypeLoadBalancer, false, []string{"10.0.1.1", "fc00:1::1"}},
 		{"lb-a-local", v1.ServiceTypeLoadBalancer, true, []string{"10.0.1.1"}},
 		{"clusterip-a", v1.ServiceTypeClusterIP, false, []string{"10.0.1.1"}},
+		{"lb-poolb", v1.ServiceTypeLoadBalancer, false, []string{"10.0.2.7"}},
 		{"lb-outside", v1.ServiceTypeLoadBalancer, false, []string{"172.16.9.9"}},
 		{"lb-bogus", v1.ServiceTypeLoadBalancer, false, []string{"bogus"}},
 	}
@@ -87,6 +88,7 @@ func spkUniverseFor(prop string, thorough bool) *spkUniverse {
 		}
 		u.SvcVars = []spkSvcVariant{u.SvcVars[0], u.SvcVars[1], u.SvcVars[2], u.SvcVars[3], u.SvcVars[4],
 			{"lb-c", v1.ServiceTypeLoadBalancer, false, []string{"10.0.1.200"}}, {"lb-poolb", v1.ServiceTypeLoadBalancer, false, []string{"10.0.2.7"}}}
+		u.Configs = append(u.Configs, spkConfig{Name: "bgp-pool-a-only+pool-b-unadvertised", Pools: []metallbv1beta1.IPAddressPool{poolA, poolB}, BGPAdvs: []metallbv1beta1.BGPAdvertisement{advB}, Peers: peers})
 		u.EPVars = u.EPVars[:3]
 		u.NodeVars[spkMe] = []spkNodeVariant{u.NodeVars[spkMe][0], u.NodeVars[spkMe][3], u.NodeVars[spkMe][1]}
 		u.NodeVars["other"] = u.NodeVars["other"][:1]
@@ -101,10 +103,11 @@ func spkUniverseFor(prop string, thorough bool) *spkUniverse {
 		{Name: "bgp-a", Pools: []metallbv1beta1.IPAddressPool{poolA}, BGPAdvs: []metallbv1beta1.BGPAdvertisement{advA}, Peers: peers},
 		{Name: "bgp-b+c+l2", Pools: []metallbv1beta1.IPAddressPool{poolA}, L2Advs: []metallbv1beta1.L2Advertisement{l2("l2")}, BGPAdvs: []metallbv1beta1.BGPAdvertisement{advB, advC}, Peers: peers},
 		{Name: "pool-shrunk", Pools: []metallbv1beta1.IPAddressPool{spkPool("pool-a", "10.0.1.0/30", "fc00:1::/64")}, L2Advs: []metallbv1beta1.L2Advertisement{l2("l2")}},
+		{Name: "bgp-pool-a-only+pool-b-unadvertised", Pools: []metallbv1beta1.IPAddressPool{poolA, poolB}, BGPAdvs: []metallbv1beta1.BGPAdvertisement{advB}, Peers: peers},
 		{Name: "pool-renamed", Pools: []metallbv1beta1.IPAddressPool{spkPool("pool-x", "10.0.1.0/24", "fc00:1::/64")}, L2Advs: []metallbv1beta1.L2Advertisement{l2("l2")}, BGPAdvs: []metallbv1beta1.BGPAdvertisement{advA}, Peers: peers},
 	}
 	if !thorough {
-		u.SvcVars = u.SvcVars[:6]
+		u.SvcVars = u.SvcVars[:7]
 		u.NodeVars[spkMe] = u.NodeVars[spkMe][:3]
 	}
 	return u
